@@ -75,9 +75,9 @@ func (evt *throwEvent) run(ctx context.Context, sender tracing.ISenderHandle) {
 			case nextActionMessage:
 				if !evt.activated.Load() {
 					evt.activated.Store(true)
-					m.response <- flowAction{sequenceFlows: allSequenceFlows(&evt.outgoing)}
+					deliverAction(ctx, m.response, flowAction{sequenceFlows: allSequenceFlows(&evt.outgoing)})
 				} else {
-					m.response <- completeAction{}
+					deliverAction(ctx, m.response, completeAction{})
 				}
 			}
 		case <-ctx.Done():
